@@ -497,8 +497,8 @@ def fam_rplanar_big(rng):
     codes = [['RotatedPlanarCode', s] for s in rng.sample([[5, 7], [7, 7], [6, 6], [7, 5]], 2)]
     decs = rng.sample([['RotatedPlanarMPSDecoder', {'chi': rng.choice([4, 8])}],
                        ['RotatedPlanarRMPSDecoder', {'chi': rng.choice([4, 6]), 'mode': rng.choice('cra')}],
-                       ['RotatedPlanarSMWPMDecoder', {}]], 2)
-    return codes, decs, 'smwpm'
+                       ['RotatedPlanarMPSDecoder', {'chi': 6, 'mode': 'a'}]], 2)
+    return codes, decs, None  # SMWPM on 7x7 with T=3 needs > 15 s per call: kept to sizes <= 5x5 (fam_rplanar)
 
 
 def fam_rtoric(rng):
@@ -659,7 +659,7 @@ def confirm(history, i, hs_a, hs_b):
 
 def part_history(ctx):
     rng = ctx.rng
-    n_hist = ctx.scale(100, 3000)
+    n_hist = ctx.scale(100, 1800)
     histories = [gen_history(rng, rng.choice([8, 12, 16, 20])) for _ in range(n_hist)]
     flat = [(h, i) for h in range(n_hist) for i in range(len(histories[h]))]
     n_workers = ctx.scale(3, 5)
